@@ -1753,13 +1753,14 @@ std::string Generator::GeneratorImpl::generateCode(const AnalyserEquationAstPtr 
 
         if (mProfile->hasConditionalOperator()) {
             // A piecewise statement written with a conditional operator (e.g., "a if c else b") must be parenthesised
-            // when it is itself the value or the condition of a piece.
+            // when it is itself the value or the condition of a piece, be it directly or below unary pluses (which
+            // generate no code of their own).
 
-            if ((ast->rightChild() != nullptr) && (ast->rightChild()->type() == AnalyserEquationAst::Type::PIECEWISE)) {
+            if (codePrecedence(ast->rightChild()) == 1) {
                 conditionCode = "(" + conditionCode + ")";
             }
 
-            if ((ast->leftChild() != nullptr) && (ast->leftChild()->type() == AnalyserEquationAst::Type::PIECEWISE)) {
+            if (codePrecedence(ast->leftChild()) == 1) {
                 valueCode = "(" + valueCode + ")";
             }
         }
